@@ -1,4 +1,5 @@
 import Yuiv.Proofs.KhSnfEx
+import Yuiv.Proofs.KhSnfF2
 /-
 KhSnf — THE INTEGER LINEAR ALGEBRA OF THE REFERENCE IS VERIFIED: `KhRef.smithInvariants` (now a total definition:
 `unitLoop` + `denseDiag` = `denseLoop`/`levelLoop`/`pivotStep`/`findPivot`, all by structural recursion on fuel)
@@ -128,6 +129,14 @@ theorem homologyOf_spec (gens : Array (Array Gen)) (d : Gen → Array Term) (hok
         ((homologyOf (.Fp p) gens d)[i]!).tors = #[] :=
   homologyOf_spec' gens d hok i hi
 
+/-! ### `C19.rankF2` -/
+
+/-- the bitset elimination of the involutive reference (`C19.rankF2`: a hash map of pivots by leading bit, a `while`
+loop per row) computes the rank over `𝔽₂` of the 0/1 matrix of its rows -/
+theorem rankF2_correct (n : Nat) (rows : Array Nat) (h : ∀ r ∈ rows.toList, r < 2 ^ n) :
+    Yuiv.C19.rankF2 rows = (bitMat n rows).rank :=
+  rankF2_spec n rows h
+
 /-! ### non-vacuity -/
 
 /-- `diag(2, 6)`: rank 2, invariant factors 2, 6 — and the theorem gives `EquivDiag … [2, 6]` -/
@@ -143,5 +152,9 @@ example : chain (denseDiag #[#[2, 0], #[0, 6]]) = #[2, 6] ∧ chain (denseDiag #
     denseDiag #[#[2, 4, 4], #[-6, 6, 12], #[10, 4, 16]] = #[2, 4, 78] ∧
     chain #[4, 6] = #[2, 12] := by
   decide +kernel
+
+/-- `rankF2` on `{011, 101, 110}` (rank 2) and on the unit vectors (rank 3) -/
+example : Yuiv.C19.rankF2 #[3, 5, 6] = 2 ∧ Yuiv.C19.rankF2 #[1, 2, 4] = 3 ∧ (bitMat 3 #[3, 5, 6]).rank = 2 :=
+  ⟨rankF2_ex_356, rankF2_ex_124, by rw [← rankF2_spec 3 #[3, 5, 6] (by decide)]; exact rankF2_ex_356⟩
 
 end Yuiv.KhSnf
